@@ -468,6 +468,9 @@ func (fv *FuncVC) execRange(x *ast.RangeStmt, st *State) *State {
 		visSort := arraySort(ks, SBoolS)
 		visGo := types.NewMap(u.Key(), types.Typ[types.Bool])
 		st.ghosts[visName] = Val{fv.th.constArr(ks, SBoolS, "false"), visSort, visGo}
+		if lx.lc != nil && lx.lc.Coll != "" {
+			st.ghosts[lx.lc.Coll] = m // the ranged map is evaluated once: give it a name for the invariants
+		}
 		ls := &loopSpec{lx: lx, label: label, pos: x.Pos(), vars: vars}
 		ls.prepHead = func(head *State) {
 			vis := fv.th.freshConst(visName, visSort)
